@@ -179,7 +179,10 @@ class time_exceeded (packet_base):
         if dlen >= 28:
             # xxx We're assuming this is IPv4!
             from .ipv4 import ipv4
-            self.next = ipv4(raw=raw[self.MIN_LEN:],prev=self)
+            try:
+                self.next = ipv4(raw=raw[self.MIN_LEN:],prev=self)
+            except RecursionError: # Errors quoting errors quoting ...
+                self.next = raw[self.MIN_LEN:]
         else:
             self.next = raw[self.MIN_LEN:]
 
@@ -244,7 +247,10 @@ class unreach(packet_base):
         if dlen >= 28:
             # xxx We're assuming this is IPv4!
             from .ipv4 import ipv4
-            self.next = ipv4(raw=raw[unreach.MIN_LEN:],prev=self)
+            try:
+                self.next = ipv4(raw=raw[unreach.MIN_LEN:],prev=self)
+            except RecursionError: # Errors quoting errors quoting ...
+                self.next = raw[unreach.MIN_LEN:]
         else:
             self.next = raw[unreach.MIN_LEN:]
 
